@@ -49,7 +49,12 @@ def lit_setup(kind):
             ctx.assume(z3.Or(suffix.t == z3.StringVal('b'), suffix.t == z3.StringVal('B')))
         ctx.assume(z3.InRe(body.t, z3.Star(digs)))
         env.set('body', body)
-        env.set('s', pv.SStr(z3.Concat(z3.StringVal("'"), body.t, z3.StringVal("'"), suffix.t)))
+        st = z3.Concat(z3.StringVal("'"), body.t, z3.StringVal("'"), suffix.t)
+        env.set('s', pv.SStr(st))
+        # consequences of the shape, stated once so that the solver need not rediscover them
+        ctx.assume(z3.Length(suffix.t) == 1)
+        ctx.assume(z3.Length(st) == z3.Length(body.t) + 3)
+        ctx.assume(z3.SubString(st, 1, z3.Length(st) + (-2) - 1) == body.t)
     return setup
 
 
